@@ -47,7 +47,7 @@ def gen_history(rng, off, cap):
 
 def run(ck):
     ck.level = "proof"
-    ck.cov["rule"] = ("histories 'new <buffer offset 0..15> <capacity>' followed by up to 28 malloc/calloc/realloc/free/aligned_alloc requests "
+    ck.cov["rule"] = ("histories 'new <buffer offset 0..15> <capacity>' followed by up to 28 malloc/calloc/realloc/free/aligned_alloc requests (and realloc of the address of the last block while no live block is there: after its free, or on a fresh allocator) "
                       "(sizes: 0, small, around the remaining space, near SIZE_MAX, overflowing calloc products); block references name live "
                       "blocks only; per step the returned offset (or NULL), last, top and the harness's own in-bounds/alignment/disjointness "
                       "oracle are compared with the model. non-trivial = distinct history with at least one successful and one refused request")
